@@ -554,8 +554,8 @@ async fn decode_and_verify_responses(
         // Make sure that starting header is the requested one and that
         // there are no gaps in the chain
         (Some(Data::Origin(start)), amount) if *start > 0 && amount > 0 => {
-            for (header, height) in headers.iter().zip(*start..*start + amount as u64) {
-                if header.height() != height {
+            for (offset, header) in headers.iter().enumerate() {
+                if start.checked_add(offset as u64) != Some(header.height()) {
                     return Err(HeaderExError::InvalidResponse);
                 }
             }
